@@ -514,6 +514,12 @@ class TestCmd:
                              fail_info="exit %s %s" % (res.exit_code, res.exc or [m for _l, _n, m in res.logs][-2:]))
             if legacy:
                 mirror_legacy(ctx, nviol)
+                if res.exit_code != 0 and "bid" in rp.fields_of(tree) and state["bid"].count("9") != len(state["bid"]) \
+                        and not flags.get("tag_num") and not (use_date and flags.get("pin_date")) and not op.get("malformed"):
+                    # the build number always increases, so a bump of a valid version is always possible and greater
+                    ctx.violation("C20", "legacy_bump_refused", {"pattern": pattern},
+                                  "`test %s %s %s` (date %s) exit %s although the build number can always grow: %s" % (
+                                      text, pattern, argv[3:], clock, res.exit_code, res.exc or [m for _l, _n, m in res.logs][-2:]))
                 if res.exit_code == 0 and new_text is not None and pattern == "{pycalver}" and not new_text > text:
                     ctx.violation("C20", "pycalver_not_greater_as_string", {"pattern": pattern},
                                   "%r is not greater than %r as a plain string" % (new_text, text))
